@@ -10,9 +10,22 @@ RULE = ("case = propagator-level model run under a seeded agenda perturbation an
         "must equal the brute-force one computed from the Coq `sat` (hence equal across all orders); non-trivial = at least one solution")
 def gen_sched(tier, rng):
     return ec.gen_models(ec.entry_any, 8000, 400000, sched_frac=1.0)(tier, rng)
+def rename_vars(case, rng):
+    """the same model with its variables DECLARED in another order (consistent renaming of every xN)"""
+    import re
+    parts = case.split(" ; ")
+    doms = parts[0].split("|")
+    n = len(doms)
+    perm = list(range(n)); rng.shuffle(perm)          # old index i becomes perm[i]
+    nd = [None] * n
+    for i, d in enumerate(doms): nd[perm[i]] = d
+    ren = lambda m: "x%d" % perm[int(m.group(1))]
+    return " ; ".join(["|".join(nd)] + [re.sub(r"\bx(\d+)\b", ren, p) for p in parts[1:]])
 def gen_perm(tier, rng):
+    from .. import plevel_global
     cases = []
-    for c in ec.gen_models(ec.entry_any, 800, 150000)(tier, rng) + ec.structured(tier, rng):
+    glob = ec.gen_models(ec.entry_any, 2500, 150000, kinds=plevel_global.KINDS + ["leq", "neq", "eq", "lineq"])(tier, rng)
+    for c in ec.gen_models(ec.entry_any, 2500, 150000)(tier, rng) + glob + ec.structured(tier, rng):
         parts = c.split(" ; ")
         doms, props, entry = parts[0], parts[1:-1], parts[-1]
         for _ in range(2):
@@ -23,9 +36,42 @@ def gen_perm(tier, rng):
             if rng.random() < 0.3 and props:
                 implied.append(rng.choice(props))     # a duplicate is implied by the original
             extra = [" ; sched %d" % rng.randint(1, 10**6)] if rng.random() < 0.5 else [""]
-            cases.append(" ; ".join([doms] + p + implied + [entry]) + extra[0])
+            v = " ; ".join([doms] + p + implied + [entry])
+            if rng.random() < 0.5 and "sched" not in v:
+                v = rename_vars(v, rng)                # declaration order
+            cases.append(v + extra[0])
+    return cases
+def gen_element_orders(tier, rng):
+    """element(array, index, value) with array entries of one or two values from a small pool (so that the indices supporting a
+    given value are NON-ADJACENT), index and value declared in either order, element posted before or after a constraint that
+    narrows index / value: the propagator's two directions (from the index, from the value) must agree whatever runs first
+    (seeded change C14c: only the first contiguous run of supporting indices was kept)"""
+    cases = []
+    for _ in range(2500 if tier == "quick" else 60000):
+        n = rng.choice([3, 3, 4, 5])
+        pool = rng.sample([-2, 0, 1, 3, 5, 9], rng.choice([2, 2, 3]))
+        arr = []
+        for _ in range(n):
+            a = rng.choice(pool)
+            arr.append(("%d..%d" % (a, a)) if rng.random() < 0.7 else ",".join(map(str, sorted(set([a, rng.choice(pool)])))))
+        idx = "%d..%d" % (rng.choice([0, 0, -1]), n - 1 + rng.choice([0, 0, 1]))
+        vals = sorted(set(rng.sample(pool + [7], rng.randint(1, len(pool)))))
+        val = ",".join(map(str, vals)) if len(vals) > 1 else "%d..%d" % (vals[0], vals[0])
+        order = rng.random() < 0.5
+        doms = arr + ([idx, val] if order else [val, idx])
+        ix, vx = (n, n + 1) if order else (n + 1, n)
+        el = "element %s x%d x%d" % (",".join("x%d" % i for i in range(n)), ix, vx)
+        others = []
+        if rng.random() < 0.6: others.append(rng.choice(["neq x%d c:%d" % (ix, rng.randrange(n)), "geq x%d c:1" % ix, "leq x%d c:%d" % (ix, n - 2), "neq x%d x%d" % (ix, vx)]))
+        if rng.random() < 0.4: others.append("neq x%d c:%d" % (vx, rng.choice(pool)))
+        props = [el] + others
+        rng.shuffle(props)
+        c = " ; ".join(["|".join(doms)] + props + [rng.choice(["enum", "enum", "first", "max x%d" % ix])])
+        if rng.random() < 0.4: c += " ; sched %d" % rng.randint(1, 10 ** 6)
+        cases.append(c)
     return cases
 FAMILIES = [
     Family("schedules", "solve", gen_sched, nontrivial=ec.nontrivial_solve, prop_judge=plevel.judge_solve),
     Family("permutations_implied", "solve", gen_perm, nontrivial=ec.nontrivial_solve, prop_judge=plevel.judge_solve),
+    Family("element_orders", "solve", gen_element_orders, nontrivial=ec.nontrivial_solve, prop_judge=plevel.judge_solve),
 ]
